@@ -182,6 +182,39 @@ def run(corrupt=None):
                             if not math.isfinite(g) or dev > 1e-9 * (1 + abs(e)):
                                 ck.violation("C03|%s|%s" % (nm.replace(" ", "_"), dname), "%s = %.12g, FS-CRP model value %.12g (dev %.3g) for %s built %s, alpha=%s, p_out=%s [%s]" % (
                                     nm, g, e, dev, absstate.key_str(key), vname, alpha, p_out, dname), rep)
+            # two trees restored from ONE dictionary snapshot (as particles hand them out); editing one must leave the
+            # other's densities equal to the model value of its own (unchanged) state
+            if p_out == 0.2 and len(cons) > 0 and absstate.data_ids(key) == set(range(n)):
+                from phyclone.tree import Tree
+                snap = cons[0][1].to_dict()
+                ta, tb = Tree.from_dict(snap), Tree.from_dict(snap)
+                _, conc_a = absstate.project(ta, full=False)
+                moved = False
+                for n_, ds in conc_a["dat"].items():
+                    if len(ds) > 1:
+                        dpx = [x for x in data if x.idx == ds[0]][0]
+                        ta.remove_data_point_from_node(dpx, n_)
+                        ta.add_data_point_to_outliers(dpx)
+                        moved = True
+                        break
+                if not moved and conc_a["outl"] and conc_a["names"]:
+                    dpx = [x for x in data if x.idx == conc_a["outl"][0]][0]
+                    ta.remove_data_point_from_outliers(dpx)
+                    ta.add_data_point_to_node(dpx, conc_a["names"][0])
+                    moved = True
+                if moved:
+                    fresh = TreeJointDistribution(FSCRPDistribution(1.0))
+                    e1 = expected(feat, 1.0, p_out, sizes_of, zrow, outl_marg, G, D, "one")
+                    ep = expected(feat, 1.0, p_out, sizes_of, zrow, outl_marg, G, D, "marg")
+                    ck.evaluations += 2
+                    try:
+                        kb = absstate.project(tb, full=True)[0]
+                        g1, gp = float(fresh.log_p_one(tb)), float(fresh.log_p(tb))
+                        if kb != key or abs(g1 - e1) > 1e-9 * (1 + abs(e1)) or abs(gp - ep) > 1e-9 * (1 + abs(ep)):
+                            ck.violation("C03|shared_snapshot", "after a tree restored from the same dictionary was edited, the untouched tree %s reports log_p_one %.12g / log_p %.12g, model %.12g / %.12g" % (
+                                absstate.key_str(kb), g1, gp, e1, ep), {"state": absstate.to_json(key)})
+                    except absstate.Inconsistent as ex:
+                        ck.violation("C03|shared_snapshot", "after a tree restored from the same dictionary was edited, the untouched tree is inconsistent: %s" % ex, {"state": absstate.to_json(key)})
             # identity: all constructions equal & same hash
             for (na, ta), (nb, tb) in itertools.combinations(cons, 2):
                 if not (ta == tb) or hash(ta) != hash(tb):
